@@ -71,7 +71,17 @@ pub struct FindScenario {
     pub extras_pre: Vec<String>,
     #[serde(default)]
     pub extras_global: Vec<String>,
+    /// give the starting points through `-files0-from FILE` instead of the command line
+    /// (same names, same order); `files0_empty_after` adds a zero-length name after that many
+    /// names, which find must diagnose and skip without dropping the names that follow
+    #[serde(default)]
+    pub starts_via_file: bool,
+    #[serde(default)]
+    pub files0_empty_after: Option<usize>,
 }
+
+/// Where the list of starting points is written (relative to find's working directory).
+pub const STARTS_FILE: &str = "../fusim-starting-points";
 
 impl FindScenario {
     pub fn new(tree: TreeSpec, argv: Vec<String>) -> FindScenario {
@@ -88,31 +98,68 @@ impl FindScenario {
             note: String::new(),
             extras_pre: vec![],
             extras_global: vec![],
+            starts_via_file: false,
+            files0_empty_after: None,
         }
     }
 
-    /// `argv` with the neutral extras put where find expects them.
-    pub fn full_argv(&self) -> Vec<String> {
-        if self.extras_pre.is_empty() && self.extras_global.is_empty() {
-            return self.argv.clone();
-        }
-        let mut out: Vec<String> = self.extras_pre.clone();
-        // leading flags, then starting points, exactly as find's own parse_args reads them
+    /// (leading flags, starting points, rest) of `argv`, split the way find's parse_args does.
+    fn split_argv(&self) -> (Vec<String>, Vec<String>, Vec<String>) {
         let mut i = 0;
+        let mut flags = vec![];
         while i < self.argv.len() && matches!(self.argv[i].as_str(), "-H" | "-L" | "-P" | "-O0" | "-O1" | "-O2" | "-O3") {
-            out.push(self.argv[i].clone());
+            flags.push(self.argv[i].clone());
             i += 1;
         }
+        let mut starts = vec![];
         while i < self.argv.len() {
             let a = self.argv[i].as_str();
             if (a.starts_with('-') && a != "-") || a == "!" || a == "(" {
                 break;
             }
-            out.push(self.argv[i].clone());
+            starts.push(self.argv[i].clone());
             i += 1;
         }
+        (flags, starts, self.argv[i..].to_vec())
+    }
+
+    /// Content of the -files0-from file, when the starting points go through one.
+    pub fn starts_file_content(&self) -> Option<Vec<u8>> {
+        if !self.starts_via_file {
+            return None;
+        }
+        let (_, starts, _) = self.split_argv();
+        if starts.is_empty() {
+            return None;
+        }
+        let mut out = vec![];
+        for (k, s) in starts.iter().enumerate() {
+            if self.files0_empty_after == Some(k) {
+                out.push(0);
+            }
+            out.extend_from_slice(s.as_bytes());
+            out.push(0);
+        }
+        Some(out)
+    }
+
+    /// `argv` with the neutral extras put where find expects them, and the starting points
+    /// replaced by `-files0-from FILE` when they go through a file.
+    pub fn full_argv(&self) -> Vec<String> {
+        if self.extras_pre.is_empty() && self.extras_global.is_empty() && !self.starts_via_file {
+            return self.argv.clone();
+        }
+        let (flags, starts, rest) = self.split_argv();
+        let mut out: Vec<String> = self.extras_pre.clone();
+        out.extend(flags);
+        if self.starts_via_file && !starts.is_empty() {
+            out.push("-files0-from".into());
+            out.push(STARTS_FILE.into());
+        } else {
+            out.extend(starts);
+        }
         out.extend(self.extras_global.iter().cloned());
-        out.extend(self.argv[i..].iter().cloned());
+        out.extend(rest);
         out
     }
 
@@ -290,6 +337,9 @@ pub fn run_find(sc: &FindScenario, ctx: &mut Ctx) -> FindObs {
 pub fn run_find_prebuilt(sc: &FindScenario, ctx: &mut Ctx, root: PathBuf) -> FindObs {
     ctx.prepare_process(sc.rlimit_stack, sc.env.as_deref());
     std::env::set_current_dir(&root).expect("chdir scratch root");
+    if let Some(list) = sc.starts_file_content() {
+        let _ = fs::write(root.join(STARTS_FILE), list);
+    }
     let log: SharedLog = Rc::new(RefCell::new(Log::default()));
     let mstate = Rc::new(RefCell::new(MutState {
         root: root.clone(),
